@@ -547,16 +547,24 @@ func newcomerScenario(o *Out, rng *rand.Rand) {
 		do(SeatOp{0, s})
 		do(SeatOp{1, s})
 	}
+	// sometimes an empty seat is reserved before the hands start (Reserve does not ask for a player)
+	if rng.Intn(3) == 0 {
+		for _, s := range perm[k:] {
+			if rng.Intn(2) == 0 {
+				do(SeatOp{2, s})
+			}
+		}
+	}
 	for i := 0; i < 1+rng.Intn(3); i++ {
 		if do(SeatOp{4, 0}) != nil {
 			return
 		}
 	}
-	// sometimes somebody leaves first so that gaps between dealer and bb exist
+	// the empty seats strictly between dealer and big blind (reserved ones included)
 	s0 := snapOf(m)
 	var gaps []int
 	for i := (s0.d + 1) % n; i != s0.bb; i = (i + 1) % n {
-		if !s0.occ[i] && !s0.res[i] {
+		if !s0.occ[i] {
 			gaps = append(gaps, i)
 		}
 	}
